@@ -128,7 +128,7 @@ LABEL = {ps.ProcessState.CREATED: 'CREATED', ps.ProcessState.RUNNING: 'RUNNING',
 
 USER_HOOKS = ['on_run', 'on_wait', 'on_finish', 'on_except', 'on_kill', 'on_running', 'on_waiting', 'on_finished',
               'on_excepted', 'on_killed', 'on_exit_running', 'on_exit_waiting', 'on_pausing', 'on_paused',
-              'on_playing', 'on_close', 'on_output_emitting', 'on_output_emitted']
+              'on_playing', 'on_close', 'on_output_emitting', 'on_output_emitted', 'on_create']
 
 
 class Hooks:
@@ -141,8 +141,9 @@ class Hooks:
         self.log = log
 
     def fire(self, proc, name):
-        if name not in self.names or (getattr(self, 'run', None) is not None and getattr(self.run, 'proc', proc) is not proc):
-            return
+        run = getattr(self, 'run', None)
+        if name not in self.names or (run is not None and getattr(run, 'proc', proc) not in (proc, None)):
+            return          # (run.proc is None: the process is being constructed)
         self.occ[name] += 1
         k = self.occ[name]
         for p in self.plan:
@@ -461,10 +462,19 @@ class Run:
             kw['inputs'] = dict(inputs)
         if comm:
             kw['communicator'] = self.comm
-        self.proc = p = cls(**kw)
+        # construction is part of the behaviour: on_create (hook 'on_create') and the first announcement (hook 'bcast',
+        # occurrence 1) happen inside the constructor; a failure there must reach the caller and leaves no process
+        cls._vhooks, cls._vlog, cls._vrun = self.hooks, self.log, self
         if comm:
             self.comm.armed = True
         self.use_listener = listener
+        self.n2 = [0]
+        self.task = None
+        try:
+            self.proc = p = cls(**kw)
+        except Exception as e:  # noqa
+            self.log.append(('ctor-raise', exc_tag(e)))
+            return
         self._attach(p)
 
     def expected_sender(self):
@@ -759,6 +769,8 @@ class Run:
 
     def projection(self):
         p = self.proc
+        if p is None:         # the constructor raised: there is no process (project_model gives the same record)
+            return dict(UNBORN)
         f = p.future()
         if f.cancelled():
             fut = ['cancelled', '-']
@@ -888,7 +900,13 @@ def norm(e):
 
 
 # ---- the specification's state in the same shape ----------------------------------------------------
+UNBORN = {'state': 'UNBORN', 'paused': False, 'killing': False, 'status': '-', 'fut': ['pending', '-'], 'closed': False,
+          'task': 'live', 'outputs': [], 'acc': ['LIVE'], 'acts': [], 'n2': 0, 'rpcs': []}
+
+
 def project_model(S):
+    if not S.get('born', True):
+        return dict(UNBORN, outputs=norm(S['outputs']))
     cur = S['cur']
     st = S['st']
     if st == 'FINISHED':
